@@ -54,7 +54,7 @@ class GT:
             out.append((i, segs))
         return out
 
-NAMES = [b"alpha", b"beta", b"g\xc3\xa4mma", b"delta x", b"eps.bin", b"z", b"Data", b"data1"]
+NAMES = [b"alpha", b"beta", b"g\xc3\xa4mma", b"delta x", b"eps.bin", b"z", b"Data", b"data1", b".. ", b"...", b" lead", b"trail "]
 
 def gen_content(rng, n):
     k = rng.below(4)
@@ -78,8 +78,9 @@ def gen_gt(rng, idx, small=True):
                 files.append(TFile(ln, [b".pad", b"%d" % rng.below(50)], bytes(ln), pad=True))
                 continue
             ln = 0 if k == 1 else rng.range(1, 12)
-            depth = rng.range(1, 2)
-            path = [rng.choice([b"d", b"sub", b"x y"]) for _ in range(depth - 1)] + [rng.choice([b"f", b"file", b"a.bin", b"\xc3\xb1"]) + b"%d" % i]
+            depth = rng.range(1, 3)
+            # components that are plain but look like traversal once trimmed or normalised are deliberate
+            path = [rng.choice([b"d", b"sub", b"x y", b".. ", b". ", b" ..", b"...", b"d "]) for _ in range(depth - 1)] + [rng.choice([b"f", b"file", b"a.bin", b"\xc3\xb1", b".. f", b"f "]) + b"%d" % i + (b" " if rng.chance(1, 8) else b"")]
             files.append(TFile(ln, path, gen_content(rng, ln)))
         if all(f.pad for f in files):
             files.append(TFile(3, [b"real"], gen_content(rng, 3)))
@@ -547,4 +548,31 @@ def gen_world_dup_path(rng):
     w.add_file((b"scan0", b"b4"), fb.content)
     w.add_file((b"bystander", b"note.txt"), b"do not touch")
     w.tag = "duplicate path inside one torrent (D6)"
+    return w
+
+
+def gen_fault_world(rng):
+    """C13 / C11: one torrent whose pieces span several files, every file present once in a scan directory and
+    nothing exported yet — every piece is evaluated through the multi-segment matcher and written segment by segment"""
+    w = World()
+    n = rng.range(2, 4)
+    files = []
+    for i in range(n):
+        ln = rng.range(1, 6)
+        files.append(TFile(ln, [b"m%d" % i] if rng.chance(2, 3) else [b"sub", b"m%d" % i], gen_content(rng, ln)))
+    if rng.chance(1, 3):
+        files.insert(rng.below(len(files) + 1), TFile(rng.range(1, 3), [b".pad", b"%d" % rng.below(9)], b"", pad=True))
+        files = [TFile(f.length, f.path, bytes(f.length), True) if f.pad else f for f in files]
+    g = GT(b"span", rng.choice([4, 7, 8, 16]), files, True)
+    w.gts = [g]; w.docs = [g.doc]
+    w.dirs.add(w.export)
+    w.scan = [(b"scan0",)]
+    w.add_file((b"scan0", b".keep"), b"k")
+    for i, f in enumerate(g.files):
+        if not f.pad:
+            w.add_file((b"scan0", b"src%d" % i), f.content)
+    if rng.chance(1, 3):
+        f = rng.choice([f for f in g.files if not f.pad])
+        w.add_file(tuple(g.target(w.export, f)), f.content)     # one file already exported
+    w.add_file((b"bystander", b"note.txt"), b"do not touch")
     return w
